@@ -4,7 +4,8 @@ TokenFactory.tla (one action per message type, checks transcribed in code order)
 exhaustively; TLC-generated histories are replayed as really signed transactions on the full
 application (harness/env E2, fresh app per history); TokenFactoryTrace evaluates the C16.* monitors
 on the observed bank / tokenfactory stores after every transaction."""
-import copy
+import copy, time
+from concurrent.futures import ThreadPoolExecutor
 from pipeline import Pipeline, Gen
 import verifkit as vk
 
@@ -25,7 +26,7 @@ class C16(Pipeline):
     gens = [Gen("TokenFactoryGen", "TokenFactoryGen_cover", "bfs", tiers=("quick",), timeout=300),
             Gen("TokenFactoryGen", "TokenFactoryGen_cover_big", "bfs", tiers=("thorough",), timeout=1200),
             Gen("TokenFactoryGen", "TokenFactoryGen_sim", "simulate", num=400, depth=14, tiers=("quick",), timeout=300),
-            Gen("TokenFactoryGen", "TokenFactoryGen_sim", "simulate", num=2500, depth=14, tiers=("thorough",), timeout=1200)]
+            Gen("TokenFactoryGen", "TokenFactoryGen_sim", "simulate", num=2000, depth=14, tiers=("thorough",), timeout=1200)]
     driver_pkg = "drivers/tokenfactory"
     driver_test = "TestDriveTokenFactory"
     trace_module = "TokenFactoryTrace"
@@ -78,8 +79,49 @@ class C16(Pipeline):
             if n_ok == 0 or n_fail == 0:
                 raise vk.Broken("vacuous drive: %s succeeded %d times, failed %d times" % (a, n_ok, n_fail))
 
+    validate_chunks = 4       # parallel TLC trace validations (histories are independent)
+
+    def _validate_all(self, events):
+        """Trace validation split by history into parallel TLC runs; results merged (indices re-based)."""
+        wev = self.with_resets(events)
+        hs = sorted({e["h"] for e in wev})
+        n = min(self.validate_chunks, max(1, len(wev) // 4000))
+        if n <= 1:
+            return vk.tlc_validate(self.trace_module, wev, cfg=self.trace_cfg)
+        bounds = [hs[(len(hs) * i) // n] for i in range(n)] + [None]
+        chunks, offs = [], []
+        for i in range(n):
+            lo, hi = bounds[i], bounds[i + 1]
+            idx = [k for k, e in enumerate(wev) if e["h"] >= lo and (hi is None or e["h"] < hi)]
+            chunks.append([wev[k] for k in idx])
+            offs.append(idx[0])
+        with ThreadPoolExecutor(max_workers=n) as ex:
+            parts = list(ex.map(lambda c: vk.tlc_validate(self.trace_module, c, cfg=self.trace_cfg), chunks))
+        v = vk.Validation()
+        v.accepted = all(p.accepted for p in parts)
+        v.details = []
+        for p, off in zip(parts, offs):
+            v.monfail += [(nm, i + off, ev) for nm, i, ev in p.monfail]
+            v.conffail += [(nm, i + off, ev) for nm, i, ev in p.conffail]
+            v.states += p.states
+            v.wall = max(v.wall, p.wall)
+            v.details += getattr(p, "details", [])
+            if not p.accepted and not hasattr(v, "reject_tail"):
+                v.reject_tail = getattr(p, "reject_tail", "")
+        v.details = v.details[:5]
+        return v
+
+    def drive(self, histories):
+        t0 = time.time()
+        ev = super().drive(histories)
+        vk.log("drive: %d histories, %d events, %.1fs" % (len(histories), len(ev), time.time() - t0))
+        return ev
+
     def validate(self, events):
-        v = super().validate(events)
+        t0 = time.time()
+        v = self._validate_all(events)
+        if len(events) > 1000:
+            vk.log("validate: %d events, %.1fs" % (len(events), time.time() - t0))
         if v.accepted and any(n == "Init" for n, _, _ in v.conffail):
             raise vk.Broken("the genesis built by the driver is not the model's initial state (CONFFAIL Init)")
         return v
@@ -96,7 +138,7 @@ class C16(Pipeline):
                         return h, k
             return None, None
 
-        out = {}
+        jobs = {}
         # 1. recorded supply of a successfully minted denom off by one -> the supply ledger monitor must fail
         h, k = find(lambda e, pre: e["act"] == "Mint" and e.get("res") == "ok")
         if h is None:
@@ -106,8 +148,7 @@ class C16(Pipeline):
         for r in evs[k]["obs"]["den"]:
             if r["c"] == a["c"] and r["s"] == a["s"]:
                 r["sup"] += 1
-        v = self.validate(evs)
-        out["corrupted_supply_rejected"] = any(n == "C16.SupplyLedger" for n, _, _ in v.monfail)
+        jobs["corrupted_supply_rejected"] = (evs, lambda v: any(n == "C16.SupplyLedger" for n, _, _ in v.monfail))
         # 2. a rejected privileged message of a non-admin reported as successful -> OnlyAdminActs must fail
         h2, k2 = find(lambda e, pre: e["act"] in ("Mint", "Burn", "ChangeAdmin", "SetMetadata") and e.get("res") == "fail"
                       and e.get("cs") == "tokenfactory" and e.get("code") == 3)
@@ -115,16 +156,14 @@ class C16(Pipeline):
             return {"ok": False, "why": "no unauthorized attempt recorded"}
         evs = copy.deepcopy(byh[h2])
         evs[k2]["res"], evs[k2]["cs"], evs[k2]["code"] = "ok", "", 0
-        v = self.validate(evs)
-        out["forged_success_rejected"] = any(n == "C16.OnlyAdminActs" for n, _, _ in v.monfail)
+        jobs["forged_success_rejected"] = (evs, lambda v: any(n == "C16.OnlyAdminActs" for n, _, _ in v.monfail))
         # 3. one successful mint dropped from the trace -> ledger / balance monitors must fail (or the trace is rejected)
         h3, k3 = next(((hh, kk) for hh, ee in byh.items() for kk, e in enumerate(ee[:-1])
                        if e["act"] == "Mint" and e.get("res") == "ok"), (None, None))
         if h3 is None:
             return {"ok": False, "why": "no successful mint followed by another step"}
         evs = byh[h3][:k3] + byh[h3][k3 + 1:]
-        v = self.validate(evs)
-        out["dropped_event_rejected"] = (not v.accepted) or any(n in ("C16.SupplyLedger", "C16.OwnBalanceOnly") for n, _, _ in v.monfail)
+        jobs["dropped_event_rejected"] = (evs, lambda v: (not v.accepted) or any(n in ("C16.SupplyLedger", "C16.OwnBalanceOnly") for n, _, _ in v.monfail))
         # 4. admin recorded as somebody else after a successful creation -> CreateNamespace must fail
         h4, k4 = find(lambda e, pre: e["act"] == "Create" and e.get("res") == "ok")
         evs = copy.deepcopy(byh[h4])
@@ -132,8 +171,12 @@ class C16(Pipeline):
         for r in evs[k4]["obs"]["den"]:
             if r["c"] == a["who"] and r["s"] == a["s"]:
                 r["admin"] = a["who"] % 3 + 1
-        v = self.validate(evs)
-        out["wrong_admin_rejected"] = any(n == "C16.CreateNamespace" for n, _, _ in v.monfail)
+        jobs["wrong_admin_rejected"] = (evs, lambda v: any(n == "C16.CreateNamespace" for n, _, _ in v.monfail))
+        t0 = time.time()
+        with ThreadPoolExecutor(max_workers=len(jobs)) as ex:
+            vs = dict(zip(jobs, ex.map(lambda j: self.validate(j[0]), jobs.values())))
+        out = {name: bool(jobs[name][1](vs[name])) for name in jobs}
+        vk.log("binding self-test: %.1fs" % (time.time() - t0))
         out["ok"] = all(out.values())
         return out
 
